@@ -372,6 +372,22 @@ func (ty *Types) strConst(v string) Term {
 		ty.s.assumeGlobal(sx("distinct", name, other))
 	}
 	ty.strs[v] = name
+	if ty.s.declared["c:str_hasprefix"] {
+		for o, to := range ty.strs {
+			if strings.HasPrefix(v, o) {
+				ty.s.assumeGlobal(sx("str_hasprefix", name, to))
+			} else {
+				ty.s.assumeGlobal(not(sx("str_hasprefix", name, to)))
+			}
+			if o != v {
+				if strings.HasPrefix(o, v) {
+					ty.s.assumeGlobal(sx("str_hasprefix", to, name))
+				} else {
+					ty.s.assumeGlobal(not(sx("str_hasprefix", to, name)))
+				}
+			}
+		}
+	}
 	return name
 }
 
